@@ -509,3 +509,130 @@ func checkC01(c *Case) (*Violation, caseInfo) {
 
 func TestC01Tree(t *testing.T)  { runProp(t, genC01Tree, checkC01) }
 func TestC01Bytes(t *testing.T) { runProp(t, genC01Bytes, checkC01) }
+
+// ----- third layer: generated pages whose parsed trees are mutated structurally ------------------
+
+func toSpec(n *html.Node) *NodeSpec {
+	s := &NodeSpec{T: int(n.Type), D: n.Data}
+	for _, a := range n.Attr {
+		s.A = append(s.A, [2]string{a.Key, a.Val})
+	}
+	for c := n.FirstChild; c != nil; c = c.NextSibling {
+		s.C = append(s.C, toSpec(c))
+	}
+	return s
+}
+
+func specNodes(s *NodeSpec, parent *NodeSpec, idx int, visit func(n, parent *NodeSpec, idx int)) {
+	visit(s, parent, idx)
+	for i, c := range s.C {
+		specNodes(c, s, i, visit)
+	}
+}
+
+var c01HideAttrs = [][2]string{{"hidden", ""}, {"style", "display:none"}, {"style", "visibility:hidden"}, {"aria-hidden", "true"}, {"style", "display:inline"},
+	{"style", "display:block"}, {"class", "twitter-tweet"}, {"class", "lazy-image-placeholder"}, {"contenteditable", "true"}, {"role", "presentation"},
+	{"class", "sidebar"}, {"class", "comment"}, {"class", "byline"}, {"href", "javascript:void(0)"}, {"href", ""}, {"src", ""}, {"srcset", ""}, {"colspan", "x"}}
+
+func genC01Page(t *rapid.T) *Case {
+	var page string
+	if rapid.IntRange(0, 4).Draw(t, "pk") == 0 {
+		page = genPager(t).HTML
+	} else {
+		p := rewriteProfile()
+		p.MaxTop = 7
+		page = newG(t, p).page()
+	}
+	doc, err := html.Parse(strings.NewReader(page))
+	if err != nil {
+		t.Skip("parse failed")
+	}
+	top := toSpec(doc)
+	nm := rapid.IntRange(1, 6).Draw(t, "nmut")
+	for m := 0; m < nm; m++ {
+		type ref struct {
+			n, parent *NodeSpec
+			idx       int
+		}
+		var all []ref
+		specNodes(top, nil, 0, func(n, parent *NodeSpec, idx int) { all = append(all, ref{n, parent, idx}) })
+		// prefer elements the code special-cases
+		var special []ref
+		for _, r := range all {
+			if r.n.T == int(html.ElementNode) {
+				switch r.n.D {
+				case "figure", "figcaption", "table", "tr", "td", "th", "caption", "li", "ul", "ol", "a", "img", "picture", "source", "video", "iframe", "blockquote", "noscript", "font", "body", "html", "head", "title", "pre", "object":
+					special = append(special, r)
+				}
+			}
+		}
+		pool := all
+		if len(special) > 0 && rapid.IntRange(0, 9).Draw(t, "special") < 7 {
+			pool = special
+		}
+		r := pool[rapid.IntRange(0, len(pool)-1).Draw(t, "mnode")]
+		switch rapid.IntRange(0, 9).Draw(t, "mkind") {
+		case 0, 1, 2, 3:
+			a := c01HideAttrs[rapid.IntRange(0, len(c01HideAttrs)-1).Draw(t, "hattr")]
+			if rapid.IntRange(0, 3).Draw(t, "anyattr") == 0 {
+				l := rapid.SampledFrom(c01Attrs).Draw(t, "attr")
+				a = [2]string{l[0], l[1+rapid.IntRange(0, len(l)-2).Draw(t, "attrv")]}
+			}
+			r.n.A = append(r.n.A, a)
+		case 4, 5:
+			if r.parent != nil {
+				r.parent.C = append(append([]*NodeSpec{}, r.parent.C[:r.idx]...), r.parent.C[r.idx+1:]...)
+			}
+		case 6:
+			if r.n.T == int(html.ElementNode) {
+				r.n.D = rapid.SampledFrom(c01Tags).Draw(t, "newtag")
+			}
+		case 7:
+			if r.parent != nil {
+				w := &NodeSpec{T: int(html.ElementNode), D: rapid.SampledFrom(c01Tags).Draw(t, "wraptag"), C: []*NodeSpec{r.n}}
+				r.parent.C[r.idx] = w
+			}
+		case 8:
+			if r.parent != nil {
+				r.parent.C = append(r.parent.C, r.n) // the same spec twice builds two separate nodes
+			}
+		default:
+			if r.n.T == int(html.TextNode) {
+				r.n.D = genText(t)
+			} else {
+				r.n.C = nil
+			}
+		}
+	}
+	ex := c01Extra{Layer: "tree", Tree: top}
+	cur := top
+	for rapid.IntRange(0, 3).Draw(t, "descend") > 1 && len(cur.C) > 0 {
+		i := rapid.IntRange(0, len(cur.C)-1).Draw(t, "child")
+		ex.RootPath = append(ex.RootPath, i)
+		cur = cur.C[i]
+	}
+	ex.Detach = rapid.IntRange(0, 3).Draw(t, "detach") == 0
+	c := &Case{Property: "C01", Kind: "mutated-page", Opts: genC01Opts(t)}
+	c.SetExtra(ex)
+	return c
+}
+
+func TestC01Page(t *testing.T) { runProp(t, genC01Page, checkC01) }
+
+// ----- fourth layer: pagers whose URLs are assembled from a tiny alphabet ------------------------
+
+func genC01Pager(t *rapid.T) *Case {
+	pg := genURLPager(t)
+	doc, err := html.Parse(strings.NewReader(pg.HTML))
+	if err != nil {
+		t.Skip("parse failed")
+	}
+	c := &Case{Property: "C01", Kind: "url-pager", Opts: OptSpec{URL: pg.PageURL, Algo: uint(rapid.SampledFrom([]int{1, 1, 1, 0}).Draw(t, "algo"))}}
+	if rapid.IntRange(0, 9).Draw(t, "log") == 0 {
+		c.Opts.LogFlags = 8
+	}
+	c.SetExtra(c01Extra{Layer: "tree", Tree: toSpec(doc)})
+	return c
+}
+
+func TestC01Pager(t *testing.T) { runProp(t, genC01Pager, checkC01) }
